@@ -17,7 +17,7 @@ sampler factory and samplers:
 values: i:<int> f:<thousandths> s:<enc> d:<ns> b:0|1 n: l:<elem>,…  elem = s.<enc> | i.<int> | n.
 
 Part B — malformed requests against a real Router (fuzzing in support of the search, no model):
-  req <endpoint> …       obs: st=<status> | grpc=<code> | caught-panic … | panic … | hang
+  req <endpoint> …       obs: st=<status> | grpc=<code> | caught-panic … | panic … | hang <top frame> <refinery frame> | fatal <class> <top frame> <refinery frame>
 The model answers `*` (unspecified); the monitor flags panics and hangs.
 -/
 open Refinery.Model.Startup Oracle
@@ -189,15 +189,21 @@ the case panic, exit or crash.  One signature per panic site.  Part B: no reques
 structure MSt where
   partB : Bool := false
   accepted : Bool := false
+  rulesObj : Bool := false     -- the configuration under test is a `RulesBasedSampler: {…}` mapping (from the builder ops)
+  nullCond : Bool := false     -- … and one of its `Conditions:` sequences has a null element
 
-def siteSig (phase : String) (obs : String) : Option String :=
+/-- one signature per panic site; where two sites give the same runtime error the configuration
+that was built (an input of the case, not model state) tells them apart -/
+def siteSig (m : MSt) (phase : String) (obs : String) : Option String :=
   let cls := (obs.splitOn " ").headD ""
   if cls == "panic:index" then some "C28:getkeyfields-empty-field-name"
   else if cls == "panic:divzero" then some "C28:deterministic-samplerate-zero-mod-2^32"
   else if cls == "panic:intn" then some "C28:intn-negative-dynsampler-rate"
   else if cls == "panic:nilmap" then some "C28:emathroughput-start-error-dropped-nil-map"
-  else if cls == "panic:nilptr" then some "C28:rules-null-element-nil-dereference"
-  else if cls == "exit" then some "C28:no-sampler-configured-os-exit"
+  else if cls == "panic:nilptr" then
+    some (if m.nullCond then "C28:rules-null-condition-nil-dereference" else "C28:rules-null-rule-nil-dereference")
+  else if cls == "exit" then
+    some (if m.rulesObj then "C28:empty-downstream-sampler-os-exit" else "C28:no-sampler-configured-os-exit")
   else if cls == "crash:ticker" then some "C28:newticker-non-positive-interval"
   else if cls.startsWith "panic" || cls.startsWith "crash" || cls.startsWith "child" then some s!"C28:{phase}-unclassified-crash"
   else none
@@ -210,18 +216,37 @@ def mon (m : MSt) (op : List String) (_ : List (List String)) (obs : Option Stri
       let cls := (o.splitOn " ").headD ""
       if cls == "panic" then (m, [{ prop := "C28", sig := s!"C28:request-panic:{ep}", what := s!"request to {ep} panicked out of the handler: {o}" }])
       else if cls == "caught-panic" then (m, [{ prop := "C28", sig := s!"C28:request-panic-caught:{ep}", what := s!"request to {ep} panicked (recovered by panicCatcher): {o}" }])
-      else if cls == "hang" then (m, [{ prop := "C28", sig := s!"C28:request-hang:{ep}", what := s!"request to {ep} did not return within the per-request timeout" }])
+      else if cls == "hang" then
+        let parts := o.splitOn " "
+        let top := parts.getD 1 "unknown"
+        let site := parts.getD 2 "unknown"
+        (m, [{ prop := "C28", sig := s!"C28:request-exhausts-resources:{ep}:{top}", what := s!"request to {ep} did not return within the per-request timeout; busy in {top} (called from {site})" }])
+      else if cls == "fatal" then
+        let parts := o.splitOn " "
+        let kind := parts.getD 1 "other"
+        let top := parts.getD 2 "unknown"
+        let site := parts.getD 3 "unknown"
+        if kind == "out-of-memory" then
+          -- same signature as a time-out in the same frame: whether an absurd allocation is refused at once or
+          -- keeps the process busy until the timeout depends on the machine
+          (m, [{ prop := "C28", sig := s!"C28:request-exhausts-resources:{ep}:{top}", what := s!"request to {ep} killed the process (fatal error: out of memory) in {top} (called from {site})" }])
+        else
+          (m, [{ prop := "C28", sig := s!"C28:request-fatal:{ep}:{kind}:{top}", what := s!"request to {ep} killed the process ({kind}) in {top} (called from {site})" }])
+      else if cls == "worker-error" then (m, [{ prop := "C28", sig := "C28:request-worker-error", what := "the harness could not run its request worker" }])
       else (m, [])
     | _ => (m, [])
   else
     match op with
+    | "leaf" :: _ => ({ m with rulesObj := false, nullCond := false }, [])
+    | "rules" :: sh :: _ => ({ m with rulesObj := sh == "obj", nullCond := false }, [])
+    | "cond" :: "null" :: _ => ({ m with nullCond := true }, [])
     | ["load"] | ["loadfile"] =>
       if o.startsWith "panic" then
         ({ m with accepted := false }, [{ prop := "C28", sig := "C28:loader-panic", what := s!"the loader/validator itself panicked: {o}" }])
       else ({ m with accepted := o == "accept" }, [])
     | opn :: _ =>
       if m.accepted && (opn == "reqkeys" || opn == "start" || opn == "eval") then
-        match siteSig opn o with
+        match siteSig m opn o with
         | some sig => (m, [{ prop := "C28", sig := sig, what := s!"validated configuration, then `{opn}` answered {o}" }])
         | none => (m, [])
       else (m, [])
